@@ -119,3 +119,37 @@ impl NetCtx {
     pub fn reply(&self, peer_index: PeerIndex, message: &LightClientMessage) -> (r: Status) { unimplemented!() }
 }
 // ===== end =====
+// ===== TRUSTED SHIM (continued): MMR proof plumbing =====
+#[verifier::external_body]
+pub struct HeaderDigestReader { b: Vec<u8> }
+impl HeaderDigestReader {
+    pub uninterp spec fn s_entity(&self) -> HeaderDigest;
+    #[verifier::external_body]
+    pub fn to_entity(&self) -> (r: HeaderDigest) ensures r == self.s_entity() { unimplemented!() }
+}
+pub struct HeaderDigestVecReader<'a> { pub items: &'a Vec<HeaderDigestReader> }
+impl<'a> HeaderDigestVecReader<'a> {
+    pub open spec fn s_items(&self) -> Seq<HeaderDigest> { self.items@.map_values(|x: HeaderDigestReader| x.s_entity()) }
+    pub fn iter(&self) -> (r: std::slice::Iter<'a, HeaderDigestReader>)
+        ensures r.remaining().len() == self.items@.len(),
+                forall|i: int| 0 <= i < self.items@.len() ==> *(#[trigger] r.remaining()[i]) == self.items@[i],
+                r.obeys_prophetic_iter_laws(), r.decrease().is_some(),
+    { self.items.iter() }
+    pub fn is_empty(&self) -> (r: bool) ensures r == (self.items@.len() == 0) { self.items.len() == 0 }
+}
+pub struct MMRProof { pub mmr_size: u64, pub items: Vec<HeaderDigest> }
+impl MMRProof {
+    pub fn new(mmr_size: u64, items: Vec<HeaderDigest>) -> (r: MMRProof) ensures r.mmr_size == mmr_size, r.items == items { MMRProof { mmr_size, items } }
+    #[verifier::external_body]
+    pub fn verify(&self, root: HeaderDigest, leaves: Vec<(u64, HeaderDigest)>) -> (r: Result<bool, String>)
+        ensures r is Ok && r->Ok_0 ==> mmr_binds(root, self.mmr_size, self.items@, leaves@) { unimplemented!() }
+}
+// headers.map(f).collect::<Result<Vec<_>, String>>(): all f-values if every one is Ok, else the first Err (assumed std semantics)
+#[verifier::external_body]
+pub fn vf_try_map<'a, T, B, F: Fn(&'a T) -> Result<B, String>>(it: std::slice::Iter<'a, T>, f: F) -> (r: Result<Vec<B>, String>)
+    requires forall|i: int| 0 <= i < it.remaining().len() ==> call_requires(f, (#[trigger] it.remaining()[i],)),
+    ensures
+        r is Ok ==> r->Ok_0@.len() == it.remaining().len()
+            && forall|i: int| 0 <= i < it.remaining().len() ==> call_ensures(f, (#[trigger] it.remaining()[i],), Ok::<B, String>(r->Ok_0@[i])),
+{ unimplemented!() }
+// ===== end =====
